@@ -37,7 +37,8 @@ ASSUMPTIONS = [
 
 
 def floors(tier):
-    return {"clean": 800, "garbage": 800, "nontrivial": 300, "has-rejected": 800, "pipe-like-source": 300, "handler=object": 300, "handler=truthy": 200, "handler=true": 200, "handler=method": 200}
+    return {"clean": 800, "garbage": 800, "nontrivial": 300, "has-rejected": 800, "pipe-like-source": 300, "handler=object": 300, "handler=truthy": 200, "handler=true": 200, "handler=method": 200,
+            "parsing=False": 300, "framing-rejects": 60}
 
 
 def plan(tier, seed):
@@ -161,7 +162,36 @@ def brief(ev):
     return [(e[0], (e[1][:6].hex() if e[0] == "item" else type(e[1]).__name__)) for e in ev][:10]
 
 
+def check_framing(case) -> core.Out:
+    data, opts = bytes(case["data"]), dict(case["opts"])
+    out = core.Out(classes=["framing-rejects", f"parsing={bool(opts['parsing'])}"], dig=core.digest((data, sorted(opts.items()))))
+    out.nontrivial = True
+    out.sample = {"stream": data[:48], "opts": opts}
+    key = f"{PROP}|framing|"
+    for qe, name in ((1, "LOG"), (2, "RAISE")):
+        try:
+            ev, foreign = trace(data, opts, qe, handler=True)
+        except S.HarnessHang:
+            out.viol.append((key + f"hang|{name}", "reader did not finish"))
+            continue
+        if foreign is not None:
+            out.viol.append((key + f"raises:{type(foreign).__name__}|{name}", repr(foreign)[:200]))
+            continue
+        ni = sum(1 for e in ev if e[0] == "item")
+        ne = sum(1 for e in ev if e[0] == "err")
+        if (ni, ne) != (case["expect_items"], case["expect_errors"]):
+            out.viol.append((key + f"count|{name}|parsing={bool(opts['parsing'])}",
+                             f"{name}: {ni} items and {ne} reported rejections, expected {case['expect_items']} and "
+                             f"{case['expect_errors']} (three unknown header pairs, one frame cut short); stream {data.hex()[:80]}"))
+    ev0, f0 = trace(data, opts, 0, handler=False)
+    if f0 is not None or sum(1 for e in ev0 if e[0] == "item") != case["expect_items"]:
+        out.viol.append((key + "count|IGNORE", f"IGNORE: {brief(ev0)} / {f0!r}"))
+    return out
+
+
 def check(case) -> core.Out:
+    if case.get("kind") == "framing-rejects":
+        return check_framing(case)
     items, opts, clean = case["items"], dict(case["opts"]), case["clean"]
     data = streams.stream_bytes(items)
     out = core.Out(classes=["clean" if clean else "garbage"] + (["pipe-like-source"] if opts.get("_pipe") else [])
@@ -231,10 +261,12 @@ def check(case) -> core.Out:
                                                f"stream {data[:50].hex()} ({S.opts_label(opts)})"))
     if not same_trace([e for e in t_nohandler if e[0] == "item"], items_log):
         out.viol.append((key + "nohandler-items", f"LOG without handler delivers different items; stream {data[:50].hex()}"))
-    if len(recs) != len(errs_log):
+    if len(recs) != len(errs_log) and core.CURRENT_ENV[0] != "log-quiet":
         out.viol.append((key + "nohandler-log-records", f"{len(recs)} log records for {len(errs_log)} rejections; "
                                                         f"stream {data[:50].hex()}"))
-    if clean:
+    if not opts.get("parsing", True):
+        out.classes.append("parsing=False")
+    if clean and opts.get("parsing", True):
         want = []
         for it in items:
             if it["p"] == "noise":
@@ -259,12 +291,29 @@ OPTS = st.fixed_dictionaries({
     "protfilter": st.sampled_from([7, 7, 7, 3]),
     "_handler": st.sampled_from(["function", "object", "truthy", "true", "method"]),
     "_pipe": st.sampled_from([False, False, True]),
+    "parsing": st.sampled_from([True, True, True, False]),
 })
 
 
 def run_shard(spec, ctx, acc):
     known = set(ctx["known"])
     quick = ctx["tier"] == "quick"
+    # framing-level rejections (header pairs no protocol knows, a final frame cut short) with a
+    # known count: every reporting mode, with and without parsing - the comparison between
+    # modes alone cannot see a change that silences them all alike
+    if spec["part"] < 4:
+        import itertools as _it
+
+        ack = S.codec.ubx_frame(b"\x05", b"\x01", b"\x06\x01")
+        nmea = S.codec.nmea_frame("GNGLL,5327.04319,N,00214.41396,W,223232.00,A,A")
+        pairs = [b"\xb5\x00", b"\xd3\xff", b"$X", b"\xb5\x63", b"\xd3\x04", b"$\x00"]
+        for parsing, pf, hk in _it.product((True, False, 0), (7, 3), ("function", "object", "true")):
+            seq = [pairs[(spec["part"] + i) % len(pairs)] for i in range(3)]
+            data = ack + seq[0] + ack + seq[1] + nmea + seq[2] + ack + ack[:5]
+            case = {"kind": "framing-rejects", "data": data, "expect_items": 4, "expect_errors": 4,
+                    "opts": {"msgmode": 0, "validate": 1, "parsebitfield": 1, "protfilter": pf, "parsing": parsing,
+                             "_handler": hk, "_pipe": False}}
+            core.handle(acc, core.checked(check, case), case, known)
     clean = st.tuples(streams.clean_streams(2, 7), OPTS).map(
         lambda t: {"kind": "qe", "items": t[0], "opts": dict(t[1], protfilter=7), "clean": True})
     garb = st.tuples(streams.garbage_streams(8), OPTS).map(
